@@ -1,8 +1,80 @@
-(* C09 property theorems (under construction). *)
-From MptV Require Import C08.ParseModel C08.PrintModel.
+(* C09 — Configuration text is read back faithfully.
+   Only theorem statements (closed by [exact]), non-vacuity examples, Print Assumptions.
+
+   Reading guide (definitions in C08/PrintModel.v, all executable):
+   * [item]: Opt name value | Sec name children — a tree of named sections and
+     name=value options; [abs_items] is the node forest it denotes (an empty value is
+     no value); [parse_tree st a text] is mpt_parse_node into an empty target with the
+     format of style [st] and name flags [a]: (return code, resulting forest).
+   * [print st deco items] writes the forest in style [st]; [deco] is ANY list of
+     decoration records (blank lines, indentation, comment lines, blanks around the
+     delimiters, trailing blanks and comments, quoting choice, brace placement) — the
+     printer uses their white space as white space and their comment text without
+     newlines, so every value of [deco] is an insignificant decoration.
+   * [wf_items st a items]: every name is non-empty, accepted by the name flags [a]
+     (mpt_parse_ncheck), free of newline / delimiters / comment character / path
+     separator, without blanks at its ends, at most 65534 bytes; every value consists
+     of bytes 1..255, can be written plain or does not end in a backslash, and is
+     shorter than 2^31 bytes.  Values of ANY such length: no 255 / 65535 limit. *)
 From Coq Require Import List ZArith.
+From MptV Require Import C08.ParseModel C08.PrintModel C08.RoundMain.
 Import ListNotations.
 Local Open Scope Z_scope.
-Example C09_example_runs :
-  parse_tree StPre allow_init (print StPre [] [Sec [97] [Opt [98] [49]]]) = (0, abs_items [Sec [97] [Opt [98] [49]]]).
+
+(* Prefix style '*' (default format  name { ... }  name = value, comment #, double and single quote):
+   every well-formed tree of ANY depth and fan-out, ANY decoration list, ANY name flags:
+   parsing the printed text succeeds and yields exactly the tree — same nesting, order,
+   names and values byte for byte, quotes removed, escaped quotes kept. *)
+Theorem C09_print_parse_roundtrip :
+  forall a deco items,
+    wf_items StPre a items = true ->
+    parse_tree StPre a (print StPre deco items) = (0, abs_items items).
+Proof. exact pre_roundtrip. Qed.
+
+(* Adding or removing insignificant white space or comments never changes the result. *)
+Theorem C09_decoration_irrelevant :
+  forall a deco1 deco2 items,
+    wf_items StPre a items = true ->
+    parse_tree StPre a (print StPre deco1 items) = parse_tree StPre a (print StPre deco2 items).
+Proof. exact pre_decoration_irrelevant. Qed.
+
+(* ---- non-vacuity ---- *)
+Definition tree1 : list item :=
+  [Opt [116;111;112] [49];
+   Sec [115;101;99] [Opt [107] [118;32;34;113;34;32;119]; Sec [105;110] []; Opt [101] []];
+   Sec [115;101;99] [Opt [97;32;98] [32;108;101;97;100]]].
+Definition deco1 : list deco :=
+  [mkDeco [10;10] [[99;111;109]; [35;35;10;120]] [32;32] [9] [] 39 [32;32] (Some [116;99]) false;
+   mkDeco [10] [] [9] [32;32] [10;32] 0 [] None true].
+
+Example C09_ex_wf : wf_items StPre allow_init tree1 = true.
 Proof. vm_compute. reflexivity. Qed.
+
+Example C09_ex_text_differs : print StPre deco1 tree1 <> print StPre [] tree1.
+Proof. vm_compute. discriminate. Qed.
+
+Example C09_ex_roundtrip :
+  parse_tree StPre allow_init (print StPre deco1 tree1) =
+  (0, [T [116;111;112] (Some [49]) [];
+       T [115;101;99] None [T [107] (Some [118;32;34;113;34;32;119]) []; T [105;110] None []; T [101] None []];
+       T [115;101;99] None [T [97;32;98] (Some [32;108;101;97;100]) []]]).
+Proof. vm_compute. reflexivity. Qed.
+
+(* a value of 3000 bytes (beyond the 255 byte limit of the basic metatype), quoted *)
+Example C09_ex_long :
+  let v := repeat 118 (Z.to_nat 3000) in
+  parse_tree StPre allow_init (print StPre [mkDeco [] [] [] [] [] 34 [] None false] [Opt [107] v]) = (0, [T [107] (Some v) []]).
+Proof. vm_compute. reflexivity. Qed.
+
+(* the other two styles on an example (their general theorems: see notes_C09.md) *)
+Example C09_ex_enc :
+  parse_tree StEnc allow_init (print StEnc deco1 [Opt [116] [49]; Sec [115] [Opt [107;107] [118;32;119]]; Sec [117] []]) =
+  (0, abs_items [Opt [116] [49]; Sec [115] [Opt [107;107] [118;32;119]]; Sec [117] []]).
+Proof. vm_compute. reflexivity. Qed.
+Example C09_ex_sep :
+  parse_tree StSep allow_init (print StSep deco1 [Opt [116] [49]; Sec [115] [Opt [107;107] [118;32;119]]; Sec [117] []]) =
+  (0, abs_items [Opt [116] [49]; Sec [115] [Opt [107;107] [118;32;119]]; Sec [117] []]).
+Proof. vm_compute. reflexivity. Qed.
+
+Print Assumptions C09_print_parse_roundtrip.
+Print Assumptions C09_decoration_irrelevant.
